@@ -53,6 +53,8 @@ CLAUSES = {
     "sign exactly once, on the leading non-zero field": "proved [B64, grid]; searched",
     "read-back = value rounded at the requested decimal, modulo 360 deg / 24 h":
         "proved [B64, grid: |read-back - value| <= half a unit of the requested decimal + 4 ulp of the double |x|*3600 (|x|*240 for RA) + 1e-300 s, modulo a turn; printed seconds is a multiple of 10^-n_dec]; searched",
+    "views after a mutator on the SAME object (to_positive, set in every input form, set_ra, set_radians, in-place operators) equal those of a fresh Angle of the same value: tuples bit for bit, strings equal":
+        "searched (deterministic sequences + 300 random 2-4 step sequences per quick run, key sequence-stale-tuple); the model is a pure function of the stored value (value semantics, translator alias analysis trusted), so stage P sees such a change only as a change of the function text",
     "characters produced by repr(float)": "modelled (B64.b64_repr = dtoa mode 0 + 'r' layout), validated bit-exactly against CPython on 119565 random/boundary floats; every run: strings compared bit for bit in the correspondence stage",
 }
 
@@ -227,6 +229,98 @@ def check_tuple(x, t, ra, who):
     return bad
 
 
+# ----------------------------------------------------------------------------------------------
+# call sequences on ONE object: view -> mutator -> the same views must be those of a fresh Angle of the same value
+
+SEQ_VIEWS = ["a.dms_tuple()", "a.ra_tuple()", "a.dms_str(True, -1)", "a.dms_str(False, 3)", "a.dms_str(True, 0)",
+             "a.dms_str(False, 12)", "a.ra_str(True, -1)", "a.ra_str(False, 2)", "a.ra_str(True, 0)", "a.ra_str(True, 12)"]
+
+
+def exact(v):
+    """bit-for-bit image of a view result (float bits, int/float distinguished)"""
+    if isinstance(v, tuple): return tuple(exact(e) for e in v)
+    if isinstance(v, float): return ("f", v.hex())
+    return (type(v).__name__, v)
+
+
+def gen_mutator(rng):
+    """source of one statement changing the value held by the name `a`"""
+    v = rng.choice([rng.uniform(-359, 359), rng.randint(-359, 359) + rng.choice([0, 0.5, 0.25]), rng.uniform(-1, 1),
+                    rng.choice([1, -1]) / 3600.0, rng.choice([1, -1]) * 10 ** rng.uniform(-9, 2)])
+    d, m, sec = rng.randint(0, 359), rng.randint(0, 59), round(rng.uniform(0, 59.99), rng.randint(0, 6))
+    if rng.random() < 0.3: d = -d
+    h = rng.randint(0, 23)
+    k = rng.choice([2, 3, -2, 0.5, 1.5, 7, 15, -0.25, rng.uniform(0.1, 20)])
+    forms = ["a.to_positive()", "a.to_positive()", "a.to_positive()",
+             "a.set(%r)" % v, "a.set(%d, %d, %r)" % (d, m, sec), "a.set((%d, %d, %r))" % (d, m, sec),
+             "a.set([%d, %d])" % (d, m), "a.set([%r])" % v, "a.set(%d, %d, %r, %r)" % (abs(d), m, sec, rng.choice([1.0, -1.0])),
+             "a.set(Angle(%r))" % v, "a.set(%r, radians=True)" % (v / 57.0), "a.set(%d, %d, %r, ra=True)" % (h, m, sec),
+             "a.set()", "a.set_ra(%r)" % (abs(v) / 15.0), "a.set_ra(%d, %d, %r)" % (h, m, sec), "a.set_ra((%d, %d, %r))" % (h, m, sec),
+             "a.set_radians(%r)" % (v / 57.0),
+             "a += %r" % v, "a -= %r" % v, "a += Angle(%r)" % v, "a -= Angle(%r)" % v, "a *= %r" % k, "a /= %r" % k,
+             "a %%= %r" % abs(k), "a **= 2", "a += %r" % (1 / 3600.0), "a -= %r" % (1 / 3600.0), "a += %r" % (1 / 60.0)]
+    return rng.choice(forms)
+
+
+def run_sequence(Angle, start, steps):
+    """steps: list of (views called before the mutator, mutator source).  Returns None or (what, program)."""
+    env = {"Angle": Angle}
+    prog = ["a = Angle(%r)" % (start,)]
+    exec(prog[0], env)
+    for (views, mut) in steps:
+        for vw in views:
+            eval(vw, env); prog.append(vw)
+        try:
+            exec(mut, env)
+        except Exception as ex:
+            return ("raises", "%s raises %r" % ("; ".join(prog + [mut]), ex), prog + [mut], None)
+        prog.append(mut)
+        a = env["a"]
+        if not isinstance(a, Angle):
+            return ("raises", "%s leaves a %s" % ("; ".join(prog), type(a).__name__), prog, None)
+        fresh = {"Angle": Angle, "a": Angle(a())}
+        for vw in SEQ_VIEWS:
+            got, want = eval(vw, env), eval(vw, fresh)
+            if exact(got) != exact(want):
+                return ("stale", "%s; %s = %r but a fresh Angle(%r) gives %r" % ("; ".join(prog), vw, got, a(), want), prog, vw)
+    return None
+
+
+def search_sequences(rng, Angle, nrandom, add):
+    n = 0
+    fixed = [(-10.5, [(["a.dms_tuple()"], "a.to_positive()")]),
+             (-10.5, [(["a.dms_str(True, 2)"], "a.to_positive()")]),
+             (-0.009, [(SEQ_VIEWS, "a.to_positive()")]),
+             (10 + 29 / 60.0 + 59.5 / 3600.0, [(SEQ_VIEWS, "a += %r" % (1 / 3600.0))]),
+             (10 + 29 / 60.0 + 59.5 / 3600.0, [(["a.dms_tuple()", "a.ra_str(True, 0)"], "a -= %r" % (60 / 3600.0)), (["a.dms_tuple()"], "a += 1")]),
+             (-0.5, [(["a.dms_str(False, 3)", "a.dms_tuple()"], "a.set(349, 30, 0)")]),
+             (138.75, [(["a.ra_tuple()", "a.ra_str(True, -1)", "a.dms_tuple()"], "a.set_ra(9, 14, 55.8)")]),
+             (12.5, [(SEQ_VIEWS, "a.set_radians(1.0)"), (SEQ_VIEWS, "a *= -2"), (SEQ_VIEWS, "a /= 15"), (SEQ_VIEWS, "a %= 7")]),
+             (-200.25, [(["a.dms_tuple()"], "a -= Angle(3.25)"), (["a.dms_tuple()", "a.ra_tuple()"], "a.to_positive()"),
+                        (["a.dms_tuple()"], "a.set((1, 2, 3.5))"), (["a.dms_tuple()"], "a.set(Angle(-7.125))")]),
+             (359.9999999999, [(SEQ_VIEWS, "a.set(-359.9999999999)"), (SEQ_VIEWS, "a.to_positive()")])]
+    seqs = list(fixed)
+    starts = [x for x in gen_values(rng, max(40, nrandom // 3)) if x == x]
+    for _ in range(nrandom):
+        x = rng.choice(starts) if rng.random() < 0.6 else -abs(rng.uniform(0.001, 359.9))
+        steps = []
+        for _ in range(rng.randint(2, 4)):
+            views = rng.sample(SEQ_VIEWS, rng.randint(1, 4))
+            if rng.random() < 0.7 and "a.dms_tuple()" not in views: views.insert(rng.randint(0, len(views)), "a.dms_tuple()")
+            steps.append((views, gen_mutator(rng)))
+        seqs.append((x, steps))
+    for (x, steps) in seqs:
+        n += sum(len(v) + 1 + len(SEQ_VIEWS) for (v, _) in steps)
+        r = run_sequence(Angle, x, steps)
+        if r:
+            kind, what, prog, vw = r
+            shown = "(%s, Angle(a()).%s)" % (vw, vw[2:]) if vw else "a()"
+            replay = "PYTHONPATH=/repo /venv/bin/python -c \"from pymeeus.Angle import Angle; %s; print%s\"" % (
+                "; ".join(prog), shown if not vw else shown)
+            add("sequence-stale-tuple" if kind == "stale" else "sequence-raises", what, [x] + [m for (_, m) in steps], replay)
+    return n, len(seqs)
+
+
 def search(rng, tier, deep):
     Angle = load(["Angle"])["Angle"].Angle
     full = deep or tier == "thorough"
@@ -281,6 +375,9 @@ def search(rng, tier, deep):
                     for (key, what) in check_printed(x, txt, fancy, nd, ra):
                         add(key, what, [x, fancy, nd, ra], rp(call))
         if len(findings) > 40: break
+    # call sequences on one object
+    nseq_eval, nseq = search_sequences(rng, Angle, 3000 if full else 300, add)
+    n += nseq_eval
     # n_dec must be an int
     for bad_nd in (1.0, None, "3"):
         n += 1
@@ -295,7 +392,8 @@ def search(rng, tier, deep):
     stats = {"evaluations": n, "distinct_nontrivial": nontriv,
              "rule": ("%d Angle values in (-360,360): whole seconds/minutes/degrees (and RA analogues) +-0..4 ulp, +-1e-12..1e-13, "
                       "rounding ties of the seconds, 0 and +-360 neighbourhoods, random; each: dms_tuple, ra_tuple, deg2dms, "
-                      "dms2deg inverse, and dms_str/ra_str for n_dec -1..12 x fancy/colon parsed with a regex" % len(vals)),
+                      "dms2deg inverse, and dms_str/ra_str for n_dec -1..12 x fancy/colon parsed with a regex; %d call sequences on one object "
+                      "(views -> mutator -> views compared bit for bit with a fresh Angle of the same value, 1-4 mutators each)" % (len(vals), nseq)),
              "samples": [{"input": [359.9999999999, True, 2, False], "checked": "dms_str -> 0d 0' 0.0'': no 60, sign, read-back mod 360"}],
              "finding_counts": seen}
     return findings, stats
